@@ -93,6 +93,13 @@ class Ev:
                 return np.array([sp.Integer(1)] * int(args[0]), dtype=object)
             if d == "np.outer":
                 return np.outer(args[0], args[1])
+            if d == "np.dot" and len(args) == 2:
+                return np.dot(args[0], args[1])
+            if d in ("np.empty", "np.zeros") and len(args) == 1:
+                shp = args[0] if isinstance(args[0], tuple) else (args[0],)
+                arr = np.empty(tuple(int(k_) for k_ in shp), dtype=object)
+                arr[...] = sp.Integer(0)
+                return arr
             if isinstance(e.func, ast.Attribute) and e.func.attr == "dot" and len(args) == 1:
                 return self.ev(e.func.value).dot(args[0])
             if isinstance(e.func, ast.Attribute) and e.func.attr == "sum":
@@ -103,6 +110,36 @@ class Ev:
                 return self.ev(e.func.value).copy()
             raise Undecided(f"C42 evaluator: call {u(e)[:60]}")
         raise Undecided(f"C42 evaluator: {type(e).__name__} {u(e)[:60]}")
+
+    def exec(self, st: ast.stmt) -> None:
+        """execute one straight-line statement (assignment to a name, tuple unpacking of a shape, slice store)"""
+        if isinstance(st, ast.AnnAssign):
+            if st.value is None:
+                return
+            st = ast.Assign(targets=[st.target], value=st.value)
+        if isinstance(st, (ast.Expr, ast.Pass)):
+            if isinstance(st, ast.Expr) and not isinstance(st.value, ast.Constant):
+                raise Undecided(f"C42 evaluator: expression statement {u(st)[:50]}")
+            return
+        if not isinstance(st, ast.Assign) or len(st.targets) != 1:
+            raise Undecided(f"C42 evaluator: statement {u(st)[:50]}")
+        tg = st.targets[0]
+        val = self.ev(st.value)
+        if isinstance(tg, ast.Name):
+            self.env[tg.id] = val
+        elif isinstance(tg, ast.Tuple) and all(isinstance(e_, ast.Name) for e_ in tg.elts):
+            vals = list(val)
+            if len(vals) != len(tg.elts):
+                raise Undecided("C42 evaluator: tuple unpacking arity")
+            for e_, v_ in zip(tg.elts, vals):
+                self.env[e_.id] = sp.Integer(v_) if isinstance(v_, int) else v_
+        elif isinstance(tg, ast.Subscript) and isinstance(tg.value, ast.Name):
+            base = self.env.get(tg.value.id)
+            if base is None:
+                raise Undecided(f"C42 evaluator: store into unknown {tg.value.id}")
+            base[self.index(tg.slice)] = val
+        else:
+            raise Undecided(f"C42 evaluator: assignment target {u(tg)[:50]}")
 
     def index(self, s: ast.expr):
         if isinstance(s, ast.Slice):
@@ -133,67 +170,64 @@ def _chainrule(ctx: Ctx, mod) -> None:
     if len(params) != 2:
         raise AnchorError(f"{q}: signature changed")
     g_name, x_name = params
-    # locate the statement that applies the chain rule: target slice [-ncomp:] of the copy
-    app = [s for s in stmts_local(fn) if isinstance(s, ast.Assign) and isinstance(s.targets[0], ast.Subscript)
-           and isinstance(s.value, ast.Call) and isinstance(s.value.func, ast.Attribute) and s.value.func.attr == "dot"]
-    if len(app) != 1:
-        raise Undecided(f"{q}: chain-rule application not of the form A[-n:] = A[-n:].dot(M)")
-    app = app[0]
     for n in (2, 3):
         xs = sp.symbols(f"x0:{n}", positive=True)
         extra = 2
         gs = sp.symbols(f"g0:{n + extra}")
-        env = {x_name: np.array(xs, dtype=object), g_name: np.array(gs, dtype=object)}
+        g_in = np.array(gs, dtype=object)
+        env = {x_name: np.array(xs, dtype=object), g_name: g_in}
         ev = Ev(env)
-        # straight-line prefix
-        for s in body_nodoc(fn):
-            if s is app:
+        result = None
+        for st in body_nodoc(fn):
+            if isinstance(st, ast.Return):
+                result = ev.ev(st.value) if st.value is not None else None
                 break
-            if isinstance(s, ast.Assign) and len(s.targets) == 1 and isinstance(s.targets[0], ast.Name):
-                ev.env[s.targets[0].id] = ev.ev(s.value)
-            elif isinstance(s, (ast.Expr, ast.Pass)):
-                continue
-            elif isinstance(s, ast.If) and any(isinstance(n_, ast.Return) for n_ in ast.walk(s)):
+            if isinstance(st, ast.If) and any(isinstance(n_, ast.Return) for n_ in ast.walk(st)):
                 # the derivative of x_i / sum(x) is delta_ij / S - x_i / S**2 for EVERY x, also where sum(x) == 1
                 # (there it is I - x 1^T, not I): a data-dependent shortcut that returns before the chain rule is applied
                 # leaves the derivatives w.r.t. the normalised fractions in place
                 if n == 2:
-                    ctx.check("R1", False, mod, q, s, f"a data-dependent branch (`if {u(s.test)[:60]}`) returns before the chain rule is applied: "
+                    ctx.check("R1", False, mod, q, st, f"a data-dependent branch (`if {u(st.test)[:60]}`) returns before the chain rule is applied: "
                               f"the Jacobian of x/sum(x) is never the identity, also not where sum(x) == 1", construct=f"{q}: conditional return before the chain rule")
                 continue
-            else:
-                raise Undecided(f"{q}: statement {u(s)[:50]}")
-        mat_name = u(app.value.args[0])
-        dxn = ev.env.get(mat_name)
-        if dxn is None or getattr(dxn, "shape", None) != (n, n):
-            raise Undecided(f"{q}: chain-rule matrix `{mat_name}` not an n x n array")
+            ev.exec(st)
+        if result is None or getattr(result, "shape", None) != (n + extra,):
+            raise Undecided(f"{q}: the kernel does not return a vector of the size of its first argument")
         S = sum(xs)
+        # the chain-rule matrix: the (n x n) operand of the dot product
+        dots = [c for c in ast.walk(fn) if isinstance(c, ast.Call) and ((isinstance(c.func, ast.Attribute) and c.func.attr == "dot"))]
+        mat = mat_node = None
+        for c in dots:
+            cands = list(c.args) + ([c.func.value] if dotted(c.func) != "np.dot" else [])
+            for a_ in cands:
+                try:
+                    v_ = ev.ev(a_)
+                except Undecided:
+                    continue
+                if getattr(v_, "shape", None) == (n, n):
+                    mat, mat_node = v_, a_
+        if mat is None:
+            raise Undecided(f"{q}: no n x n chain-rule matrix found as operand of a dot product")
         for i in range(n):
             for j in range(n):
                 want = sp.diff(xs[i] / S, xs[j])
-                ok = _z(dxn[i, j] - want)
+                ok = _z(mat[i, j] - want)
                 if n == 3 or not ok:
-                    ctx.check("R1", ok, mod, q, _assign_to(fn, mat_name),
-                              f"{mat_name}[{i},{j}] = {sp.simplify(dxn[i, j])} but d(x_{i}/sum x)/dx_{j} = {sp.simplify(want)}",
-                              construct=f"{q}: d(xn_{i})/d(x_{j}) [n={n}]", facts={"entry": str(sp.simplify(dxn[i, j])), "expected": str(sp.simplify(want))})
-        # application: result[-n:][j] == sum_i g[-n:][i] * d(xn_i)/dx_j ; leading entries untouched
-        res = ev.ev(app.value)
-        tgt_slice = ev.index(app.targets[0].slice)
-        full = ev.ev(app.targets[0].value).copy()
-        full[tgt_slice] = res
+                    ctx.check("R1", ok, mod, q, mat_node,
+                              f"chain-rule matrix entry [{i},{j}] = {sp.simplify(mat[i, j])} but d(x_{i}/sum x)/dx_{j} = {sp.simplify(want)}",
+                              construct=f"{q}: d(xn_{i})/d(x_{j}) [n={n}]", facts={"entry": str(sp.simplify(mat[i, j])), "expected": str(sp.simplify(want))})
         tail = list(gs[-n:])
-        ok = all(_z(full[extra + j] - sum(tail[i] * sp.diff(xs[i] / S, xs[j]) for i in range(n))) for j in range(n))
-        ok = ok and all(_z(full[k] - gs[k]) for k in range(extra))
-        ctx.check("R1", ok, mod, q, app, "the last ncomp derivatives must become sum_i df/dxn_i * dxn_i/dx_j (row vector times dxn); "
+        ok = all(_z(result[extra + j] - sum(tail[i] * sp.diff(xs[i] / S, xs[j]) for i in range(n))) for j in range(n))
+        ok = ok and all(_z(result[k] - gs[k]) for k in range(extra))
+        ctx.check("R1", ok, mod, q, fn, "the last ncomp derivatives must become sum_i df/dxn_i * dxn_i/dx_j (row vector times dxn); "
                   "the leading derivatives stay unchanged", construct=f"{q}: application of the chain rule [n={n}]",
-                  facts={"result": [str(sp.simplify(v)) for v in full]})
-    # the result must be the modified copy, not the input
-    rets = [r for r in walk_local(fn) if isinstance(r, ast.Return)]
-    tgt = u(app.targets[0].value)
-    ok = len(rets) == 1 and u(rets[0].value) == tgt and tgt != g_name
-    ctx.check("R1", ok, mod, q, rets[0] if rets else fn, "the chain-ruled copy must be returned (and the input left untouched)",
-              construct=f"{q}: returns the modified copy")
-    ctx.sample({"rule": "R1", "kernel": q, "matrix": u(_assign_to(fn, u(app.value.args[0])).value)})
+                  facts={"result": [str(sp.simplify(v)) for v in result]})
+        # the input must not be modified in place
+        ok_in = all(g_in[k] == gs[k] for k in range(n + extra))
+        ctx.check("R1", ok_in, mod, q, fn, "the kernel must work on a copy: the derivative array passed in was modified in place",
+                  construct=f"{q}: input left untouched [n={n}]")
+    ctx.sample({"rule": "R1", "kernel": q})
+    return
 
 
 def _normalize(ctx: Ctx, mod) -> None:
@@ -322,7 +356,11 @@ def _wrappers(ctx: Ctx, mod) -> None:
                 ctx.check("R5", ok, mod, wname, a, f"argument {k} of {kernel} must be column {i} of `{arr_params[k]}`; found `{u(arg)}`",
                           construct=f"{wname}: argument {k}")
         rng = loops[0].iter
-        ok = isinstance(rng, ast.Call) and call_name(rng) in ("prange", "range") and ".shape[1]" in u(rng)
+        rng_txt = u(rng)
+        cols_names = {u(st.targets[0].elts[1]) for st in walk_local(fn) if isinstance(st, ast.Assign) and isinstance(st.targets[0], ast.Tuple)
+                      and len(st.targets[0].elts) == 2 and isinstance(st.value, ast.Attribute) and st.value.attr == "shape"}
+        ok = isinstance(rng, ast.Call) and call_name(rng) in ("prange", "range") and (
+            ".shape[1]" in rng_txt or any(rng_txt.endswith(f"({c_})") for c_ in cols_names))
         ctx.check("R5", ok, mod, wname, loops[0], "the loop must run over all columns (shape[1])", construct=f"{wname}: column range")
     # public dispatchers call the right kernels
     for pub, kernels in (("chainrule_fractional_derivatives", {"_chainrule_fractional_derivatives_parallel", "_chainrule_fractional_derivatives"}),
